@@ -28,6 +28,7 @@ type c10Case struct {
 	Disk    bool         `json:"disk,omitempty"`
 	Reuse   bool         `json:"reuse,omitempty"`  // one filtered FS value walked repeatedly and re-entrantly
 	Follow  []string     `json:"follow,omitempty"` // FollowPaths (the trees have no symlinks: each path stands for itself)
+	Multi   bool         `json:"multi,omitempty"`  // the filter sits on a composite whose sub-roots are the tree's top-level directories
 }
 
 func (c c10Case) String() string {
@@ -44,13 +45,16 @@ func (c c10Case) String() string {
 	if len(c.Follow) > 0 {
 		s += fmt.Sprintf(" follow=%q", c.Follow)
 	}
+	if c.Multi {
+		s += " over-a-composite-of-sub-roots"
+	}
 	return s
 }
 
 var c10Patterns = []string{"a", "a/b", "a/*", "a/**", "*", "**", "a*", "?b", "*/b", "**/b", "a/b/", "[a]b", "a/b*", "b", "!a", "!a/b", "!a/b*", "!**/c", "ab"}
 
 // literal prefixes of increasing depth, negated and not, and trailing globs
-var c10DeepPatterns = []string{"a", "a/b", "a/b/c", "a/b/c/b", "!a", "!a/b", "!a/b/c", "b/a", "!b/a", "a/*", "a/b/**"}
+var c10DeepPatterns = []string{"a", "a/b", "a/b/c", "a/b/c/b", "!a", "!a/b", "!a/b/c", "b/a", "!b/a", "a/*", "a/b/**", "!a/b/*", "!a/b/**"}
 
 // patterns whose tail is more than one wildcard component (used in single-pattern and pair cases)
 var c10TailPatterns = []string{"a/*/**", "*/*", "a/*/*", "!a/*/*", "!a/*/**", "*/*/**"}
@@ -369,6 +373,13 @@ func judgeC10(c c10Case) (string, string) {
 		}
 		under = d
 	}
+	if c.Multi {
+		comp, err := compositeOf(c.Tree)
+		if err != nil {
+			return "infra", err.Error()
+		}
+		under = comp
+	}
 	if c.Reuse {
 		return judgeC10Reuse(c, under)
 	}
@@ -516,6 +527,21 @@ func runC10(r *evid.Run) {
 		}
 		for _, t := range trees {
 			cases = append(cases, c10Case{Tree: t, Include: l}, c10Case{Tree: t, Exclude: l})
+		}
+	}
+	// the filter on top of a composite of sub-roots: lists that prune one sub-root, map functions that skip one
+	{
+		multi := c11MultiTree()
+		mp := []string{"p", "p1", "r", "p1/a", "p/a/x", "*/y", "!p1", "r/z", "**/x", "p1/a/x"}
+		for _, inc := range patternLists(2, mp) {
+			for _, exc := range patternLists(1, mp) {
+				cases = append(cases, c10Case{Tree: multi, Include: inc, Exclude: exc, Multi: true})
+			}
+		}
+		for _, n := range multi {
+			for _, op := range []string{"exclude", "skipdir"} {
+				cases = append(cases, c10Case{Tree: multi, MapOp: op, MapPath: n.Path, Multi: true}, c10Case{Tree: multi, Include: []string{"*/a"}, MapOp: op, MapPath: n.Path, Multi: true})
+			}
 		}
 	}
 	// escaped metacharacters in patterns, names that contain them
